@@ -3,6 +3,7 @@ import json
 import re
 
 from .lib import (PLUMBING, callee_allow, callers, closure_args_of_call, lit_strs, operand_local)
+from .lib_c09 import stream_emissions
 from .lib_c10 import (closure_site, impl_fns, ok_sources, upvar_fields, upvar_origin, upvar_params, value_sources)
 
 LEVEL = "other"
@@ -10,7 +11,7 @@ TECHNIQUE = ("static analysis: value-preserving CHAIN slices from every decoder 
              "from_map primitive table, SAME-SOURCE slices of the per-request context, census of statics and interior-mutable shared state")
 LEVEL_TEXT = ("Decides on the type-checked MIR of the current tree: (R1) every decoder is fed the request's own data unmodified — path: rqctx.endpoint.variables -> from_map; "
               "query: uri().query() (only unwrap_or(\"\")) -> serde_urlencoded::from_str; typed bodies: the buffered body bytes -> serde_json / form_urlencoded; raw: the same bytes frozen; "
-              "stream: each yielded chunk is the frame's data payload; accumulation (written as a try_fold or as a `while let Some(chunk) = s.try_next().await?` loop): one append site puts each element of this "
+              "stream: each emitted chunk (`yield` of the try_stream! generator, or `Ok(Some((chunk, state)))` of a try_unfold step whose state carries the body on unchanged) is the frame's data payload; accumulation (written as a try_fold or as a `while let Some(chunk) = s.try_next().await?` loop): one append site puts each element of this "
               "body's stream whole into an initially empty buffer, every pulled element is appended before the next pull, nothing else writes the buffer, and the buffer is what is returned "
               "— and each extractor wraps exactly the decoder's output (the Ok side of the decoder's Result, however the error side is spelled); "
               "any other operation on such a chain (case change, trim, slicing, re-encoding, a constant) is a violation; (R2) in from_map every deserialize_<T> parses the raw string as T "
@@ -189,7 +190,8 @@ def r1_decoder_inputs(ctx):
         sl = _chain(ctx, R, "query:decoder-input-is-the-raw-query-string", lq, t["args"][0], qallow, (lq, bb), must_call=r"http::Uri::query$",
                     origin=_from_params([1]), consts_ok=True)
         ls = lit_strs(sl)
-        others = [a for a in _consts(sl) if not (a[0] == "lit" and a[1] == '{"str": ""}')]
+        # (the empty default may be a literal or a named constant whose evaluated value is "")
+        others = [a for a in _consts(sl) if not (a[0] == "lit" and a[1] == '{"str": ""}') and not (a[0] == "const" and len(a) > 2 and a[2] == '{"str": ""}')]
         ctx.check(R, "query:absent-query-is-empty-string", ls <= {""} and not others, "string constants on the chain: %s (only the empty default is allowed)" % sorted(ls), (lq, bb))
     _wraps(ctx, R, "query:extractor-wraps-decoder-output", ds, lq, r"^extractor::query::Query$", qallow + [r"serde_urlencoded::from_str$"], r"serde_urlencoded::from_str$", consts_ok=True)
     qimpl = [f for i, f in impl_fns(ds, r"^extractor::common::SharedExtractor$", "from_request") if "query::Query" in i["self"]]
@@ -270,30 +272,19 @@ def r1_decoder_inputs(ctx):
             okn = okn and sl.params() == _names(snew).get("body", [1]) and not sl.callees and not _consts(sl)
     ctx.check(R, "stream:new-stores-its-body-argument", okn, "StreamingBody::new builds %d literal(s) whose `body` is its own first argument: %s" % (len(lits), okn), snew)
     ist = ctx.need_fn(ds, R, r"^extractor::body::StreamingBody::into_stream$")
-    gens = [g for g in ds.children(ist) if g.live_calls(r"yielder::Sender::<T>::send$")]
-    if len(gens) != 1:
-        ctx.lost(R, "the try_stream! generator of StreamingBody::into_stream")
+    # where the stream hands a chunk to its consumer: `yield x` of a try_stream! generator, or `Ok(Some((x, next_state)))`
+    # of a try_unfold step (lib_c09.stream_emissions); in both the chunk must be the frame's own data payload, the frame
+    # must come from this StreamingBody's body, and (unfold) the body must be carried to the next step unchanged
+    em = stream_emissions(ds, ist, field="body")
+    if em is None:
+        ctx.lost(R, "the emission sites of StreamingBody::into_stream (a try_stream! generator or a try_unfold step)")
     else:
-        g = gens[0]
-        data = []
-        for bb, t in g.live_calls(r"yielder::Sender::<T>::send$"):
-            l = operand_local(t["args"][1])
-            dd = g.defs().get(l, []) if l is not None else []
-            if len(dd) == 1 and dd[0][1] == "assign" and dd[0][2]["rv"]["rv"] == "agg" and dd[0][2]["rv"].get("variant") == "Ok":
-                data.append((bb, t, dd[0][2]))
-        ctx.check(R, "stream:single-data-yield", len(data) == 1, "send(Ok(..)) sites in the generator: %d" % len(data), g)
-        par, st = closure_site(ds, g)
-        for bb, t, agg in data:
-            def origin(sl, g=g):
-                fl = upvar_fields(sl)
-                oks = []
-                for k in fl:
-                    p, ps = upvar_origin(ds, g, k)
-                    oks.append(ps is not None and ps.params() == [1] and ps.reads_field("body") and not callee_allow(ps, ASYNC))
-                return bool(fl) and all(oks), "generator captures reached %s, each = self.body: %s" % (sorted(fl), oks)
-            _chain(ctx, R, "stream:yielded-chunk-is-the-frame-payload", g, agg["rv"]["ops"][0],
+        g = em["body"]
+        ctx.check(R, "stream:single-data-yield", len(em["items"]) == 1, "sites that emit an Ok(chunk) item [%s idiom]: %d" % (em["form"], len(em["items"])), g)
+        for bb, item in em["items"]:
+            _chain(ctx, R, "stream:yielded-chunk-is-the-frame-payload", g, item,
                    ASYNC + [r"hyper::body::Frame::<T>::into_data$", r"http_body_util::BodyExt::frame$", r"Result::<T, E>::map_err$"], (g, bb),
-                   must_call=r"Frame::<T>::into_data$", origin=origin)
+                   must_call=r"Frame::<T>::into_data$", origin=em["state_origin"])
     # ---- accumulation
     _accumulation(ctx, R)
 
@@ -471,15 +462,25 @@ def r2_primitive_table(ctx):
         ctx.check(R, "as_value:%s" % i["self"], good, "Ok(..) returns the stored string itself: %s" % good, f)
     if n == 0:
         ctx.lost(R, "impls of from_map::MapValue")
-    # sequences: as_seq items go to the element deserializer unmodified
+    # sequences: as_seq items go to the element deserializer unmodified.  On the normalised view: `match it.next() {Some(v) => seed.deserialize(&mut Value(v)).map(Some), None => Ok(None)}`,
+    # `it.next().map(|v| seed.deserialize(&mut Value(v))).transpose()` and the let-else spelling build the element deserializer in the method's own body.
+    dn = ctx.dsn
     for nm_, rx in (("next_element_seed", r"SeqAccess"), ("next_value_seed", r"MapAccess"), ("next_key_seed", r"MapAccess")):
-        for i, f in impl_fns(ds, r"_serde::de::%s$" % rx, nm_):
+        for i, f in impl_fns(dn, r"_serde::de::%s$" % rx, nm_):
             aggs = [(b, s) for b, _, s in f.aggregates(r"^from_map::MapDeserializer$", "Value") if b in f.reachable(0)]
-            good = len(aggs) == 1
+            stray = [h.id for h in dn.descendants(f) if any(True for _ in h.aggregates(r"^from_map::MapDeserializer$"))]
+            good = len(aggs) == 1 and not stray
             for b, s in aggs:
                 sl = f.slice(s["rv"]["ops"][0])
                 good = good and sl.params() == [1] and not callee_allow(sl, ASYNC + [r"iter::Iterator::next$", r"Option::<T>::take$", r"Option::<T>::replace$"]) and not _consts(sl)
-            ctx.check(R, "access:%s" % nm_, good, "the value handed to the element deserializer comes from self (iterator item / saved value) unmodified: %s" % good, f)
+            # .. and that deserializer (nothing else) is what the seed decodes from
+            fed = []
+            for bb, t in f.live_calls(r"_serde::de::DeserializeSeed::deserialize$"):
+                ds_ = f.slice(t["args"][1])
+                fed.append(len(aggs) == 1 and ds_.touches_local(aggs[0][1]["pl"]["l"]) and not callee_allow(ds_, ASYNC + [r"iter::Iterator::next$", r"Option::<T>::take$", r"Option::<T>::replace$"]))
+            good = good and len(fed) == 1 and all(fed)
+            ctx.check(R, "access:%s" % nm_, good, "the value handed to the element deserializer comes from self (iterator item / saved value) unmodified, and the seed decodes from that deserializer: %s%s" % (
+                good, ("; MapDeserializer literals in closures: %s" % stray) if stray else ""), f)
 
 
 # ------------------------------------------------------------------------------------------------ R3
@@ -982,6 +983,23 @@ SELFTEST = [
     {"name": "accumulate-extend-from-slice", "kind": "benign",
      "edits": [("dropshot/src/extractor/body.rs", "                out.put(chunk);", "                out.extend_from_slice(&chunk);")],
      "why": "behaviour-preserving: put(chunk) spelled extend_from_slice(&chunk)"},
+    {"name": "seq-access-map-transpose", "kind": "benign",
+     "edits": [("dropshot/src/from_map.rs",
+                "        match self.iter.next() {\n            Some(value) => {\n                let mut deserializer = MapDeserializer::Value(value);\n                seed.deserialize(&mut deserializer).map(Some)\n            }\n            None => Ok(None),\n        }\n    }\n}\n\n#[cfg(test)]",
+                "        self.iter\n            .next()\n            .map(|element| {\n                let mut deserializer = MapDeserializer::Value(element);\n                seed.deserialize(&mut deserializer)\n            })\n            .transpose()\n    }\n}\n\n#[cfg(test)]")],
+     "why": "behaviour-preserving: `match next() {Some(v) => de(v).map(Some), None => Ok(None)}` spelled `next().map(|v| de(v)).transpose()`"},
+    {"name": "query-default-as-named-constant", "kind": "benign",
+     "edits": [("dropshot/src/extractor/query.rs", "    let raw_query_string = request.uri().query().unwrap_or(\"\");",
+                "    const NO_QUERY: &str = \"\";\n    let raw_query_string = request.uri().query().unwrap_or(NO_QUERY);")],
+     "why": "behaviour-preserving: the empty default of an absent query string is a named constant"},
+    {"name": "query-default-is-not-empty", "kind": "mutant",
+     "edits": [("dropshot/src/extractor/query.rs", "    let raw_query_string = request.uri().query().unwrap_or(\"\");",
+                "    const NO_QUERY: &str = \"limit=10\";\n    let raw_query_string = request.uri().query().unwrap_or(NO_QUERY);")],
+     "expect": ["C09.R1"], "why": "(named-constant idiom) a request without a query string is decoded as if the client had sent `limit=10`"},
+    {"name": "unfold-stream-chunk-truncated", "kind": "mutant", "patch": "benign/C11-R5/patch.diff",
+     "edits": [("dropshot/src/extractor/body.rs", "return Ok(Some((buf, (this, bytes_read + len))));",
+                "return Ok(Some((buf.slice(0..len.min(4096)), (this, bytes_read + len))));")],
+     "expect": ["C09.R1"], "why": "(try_unfold idiom: the stream of benign-C11-R5) streamed chunks longer than 4 KiB lose their tail"},
     {"name": "multipart-log-line-and-rename", "kind": "benign",
      "edits": [("dropshot/src/extractor/body.rs", "        let stream = StreamingBody::new(body, rqctx.request_body_max_bytes())\n            .into_stream();\n        Ok(MultipartBody { content: multer::Multipart::new(stream, boundary) })",
                 "        slog::debug!(rqctx.log, \"multipart body\"; \"boundary\" => &boundary);\n        let limited = StreamingBody::new(body, rqctx.request_body_max_bytes());\n        let parts_stream = limited.into_stream();\n        Ok(MultipartBody { content: multer::Multipart::new(parts_stream, boundary) })")],
